@@ -1679,6 +1679,12 @@ func (self *ReplicationAckDB) ProcessLeaderPushLock(glockIndex uint16, aofLock *
 		lockManager.lockDb.DoAckLock(lock, false)
 		return nil
 	}
+	if lock.locked == 0 {
+		self.ackGlocks[glockIndex].Unlock()
+		lockManager := lock.manager
+		lockManager.lockDb.DoAckLock(lock, false)
+		return nil
+	}
 
 	aofId := aofLock.GetAofId()
 	self.commandAofs[glockIndex][lock.command.RequestId] = aofId
